@@ -846,13 +846,6 @@ Proof.
   - intros n Hn. rewrite forallb_forall in Hcaps. specialize (Hcaps n Hn). unfold no_caps in Hcaps. destruct (n_caps n); [reflexivity|discriminate].
 Qed.
 
-(* the operands of an elementwise node are one-element tensors or have ONE common shape (no genuine broadcasting between
-   two multi-element operands) in the run at hand: part of what the region theorems need from the world *)
-Definition uniform_operands (A : Type) (sem : string -> list nat -> list (tensor A) -> option (list (tensor A)))
-  (g : tgraph) (e : env (tensor A)) : Prop :=
-  forall ef n vs, eval (tensor A) sem (tg_nodes g) e = Some ef -> In n (tg_nodes g) -> is_elem n = true ->
-    str_in (nop n) pw_ops_all = true -> lookups (tensor A) ef (n_uses n) = Some vs -> operands_ok vs.
-
 Section ForestSound.
   Variable A : Type.
   Notation V := (tensor A).
@@ -1056,6 +1049,15 @@ Section ForestSound.
       - intros n u v Hn. apply forest_rank. exact Hn.
       - intros n vs Hn Hop Hl. destruct (f_es_in n Hn) as (H1 & H2 & H3).
         apply (Huni ef n vs Hev H1 H2 Hop). unfold n_uses. now rewrite H3, app_nil_r.
+    Qed.
+
+    Lemma forest_admissible : tadmissible (apply_forest g f) e /\ uniform_operands A sem (apply_forest g f) e.
+    Proof.
+      apply (region_admissible A sem sem_proper Htr F Hpw Fcl Hcl Hcl_type Hacc g r p q e ef Hadm forest_region_facts Hev).
+      - intros n u v Hn. apply forest_rank. exact Hn.
+      - intros n vs Hn Hop Hl. destruct (f_es_in n Hn) as (H1 & H2 & H3).
+        apply (Huni ef n vs Hev H1 H2 Hop). unfold n_uses. now rewrite H3, app_nil_r.
+      - intros n vs Hn Hel Hop Hl. exact (Huni ef n vs Hev Hn Hel Hop Hl).
     Qed.
   End Forest.
 End ForestSound.
@@ -1443,6 +1445,18 @@ Section AddSound.
     - intros n vs Hn Hop Hl. cbn [r add_region r_es] in Hn. destruct (a_es_in n Hn) as (H1 & H2 & H3 & _).
       apply (Huni ef n vs Hev H1 H2 Hop). unfold n_uses. now rewrite H3, app_nil_r.
   Qed.
+
+  Lemma add_admissible : tadmissible (apply_add g st) e /\ uniform_operands A sem (apply_add g st) e.
+  Proof.
+    apply (region_admissible A sem sem_proper Htr F Hpw Fcl Hcl Hcl_type Hacc g r p q e ef Hadm add_region_facts Hev).
+    - intros n u v Hn _ Hu Ev. cbn [r add_region r_es] in Hn.
+      apply (add_operand_rank (fun _ => True) n u v Hn Hu Ev); auto.
+      intros pr yv _ Hpr E0. destruct (a_es_in pr Hpr) as (Hprin & _).
+      apply (add_rank_forward (tg_nodes g) [] (eq_sym (app_nil_r _)) pr yv Hpr Hprin E0).
+    - intros n vs Hn Hop Hl. cbn [r add_region r_es] in Hn. destruct (a_es_in n Hn) as (H1 & H2 & H3 & _).
+      apply (Huni ef n vs Hev H1 H2 Hop). unfold n_uses. now rewrite H3, app_nil_r.
+    - intros n vs Hn Hel Hop Hl. exact (Huni ef n vs Hev Hn Hel Hop Hl).
+  Qed.
 End AddSound.
 
 (* ================================================================ every action kind of the pass *)
@@ -1506,6 +1520,87 @@ Section AllKinds.
       { unfold run in Hrun. simpl in Hrun. destruct (evalg (tg_nodes g) e); [eauto|discriminate]. }
       destruct Hev as [ef Hev]. simpl in Hk.
       exact (forest_run A sem sem_proper Htr F Hpw Fcl Hcl Hcl_type Hacc g t2 f' v0 p q e ef Hff Hadm Huni Hev Hk o Hrun).
+  Qed.
+
+  Lemma tadm_transport g g1 g2 e : tg_nodes g1 = tg_nodes g2 -> tg_scalar g1 = tg_scalar g2 ->
+    tadmissible A sem g1 e /\ (uniform_operands A sem g e -> uniform_operands A sem g1 e) -> uniform_operands A sem g e ->
+    tadmissible_u g2 e.
+  Proof.
+    intros Hn Hs [[H1 H2] H3] Hu. split.
+    - constructor; [now rewrite <- Hn | intros ef x v; rewrite <- Hn, <- Hs; apply H2].
+    - intros ef n vs. rewrite <- Hn. apply (H3 Hu).
+  Qed.
+
+  (* what the pass reads (SSA, one-element flags, uniform operands) is preserved by every action of a proved kind *)
+  Theorem transpose_pair_action_admissible g act e ef : tadmissible_u g e -> evalg (tg_nodes g) e = Some ef ->
+    decide_step g = Some act -> proved_kind_all g act = true -> tadmissible_u (apply_taction g act) e.
+  Proof.
+    intros [Hadm Huni] Hev Hdec Hk. unfold decide_step in Hdec.
+    destruct (first_some (decide_add g) (tg_nodes g)) as [st|] eqn:Eadd.
+    { injection Hdec as <-. apply first_some_spec in Eadd as (start & Hstart & Hd).
+      destruct (decide_add_facts g start st Hstart Hd) as (p & q & Haf).
+      exact (add_admissible A sem sem_proper Htr F Hpw Fcl Hcl Hcl_type Hacc g st p q e ef Haf Hadm Huni Hev). }
+    destruct (first_some (decide_forest g) (tg_nodes g)) as [f|] eqn:Efor.
+    { injection Hdec as <-. apply first_some_spec in Efor as (t2 & Ht2 & Hd).
+      destruct (decide_forest_facts g t2 f Hd) as (v0 & p & q & Hff). simpl in Hk.
+      exact (forest_admissible A sem sem_proper Htr F Hpw Fcl Hcl Hcl_type Hacc g t2 f v0 p q e ef Hff Hadm Huni Hev Hk). }
+    pose proof (spec_a_n A sem op_type F Hpw) as Hpwn. pose proof (accepts_a_n A sem op_type Hacc) as Haccn.
+    destruct (first_some (decide_dag g) (tg_nodes g)) as [d|] eqn:Edag.
+    { injection Hdec as <-. apply first_some_spec in Edag as (t2 & Ht2 & Hd).
+      assert (Ht2d : d_T2 d = t2).
+      { unfold decide_dag in Hd. destruct (is_T t2); [|discriminate]. cbn [negb] in Hd.
+        destruct (first_in t2); [|discriminate]. destruct (perm_of t2); [|discriminate].
+        destruct (collect _ _ _ _ _ _) as [[[|T1 [|]] es]|]; try discriminate.
+        destruct (node_eqb T1 t2); [discriminate|]. destruct (perm_of T1); [|discriminate]. destruct (out1 T1); [|discriminate].
+        destruct (first_in T1); [|discriminate]. destruct (n_outs t2); [discriminate|]. destruct (_ && _); [|discriminate].
+        now injection Hd as <-. }
+      simpl in Hk. destruct (d_es d) eqn:Ees; [|discriminate]. rewrite <- Ht2d in Ht2, Hd.
+      destruct (tdag_direct_facts A sem Htr g d e ef Hadm Ht2 Hd Ees Hev) as (T1 & p & q & a & Htf & Hch & Heq).
+      assert (Hdf : castlike_data_first (ac_t1 a) (ac_chain a) = true) by (now rewrite Hch).
+      pose proof (tchain_admissible A sem sem_proper Htr F Hpwn Fcl Hcl Hcl_type Haccn g a T1 (d_T2 d) p q e ef Hadm Htf Hdf Hev) as Hpres.
+      cbn [apply_taction].
+      change (tg_graph g) with (mkGraph (tg_nodes g) (tg_outputs g)) in Heq.
+      rewrite (rewire_eq _ _ a T1 (d_T2 d) (proj1 (tadm_ssa _ _ _ _ Hadm)) (tf_struct _ _ _ _ _ _ Htf)) in Heq.
+      refine (tadm_transport g _ (apply_dag g d) e _ _ Hpres Huni).
+      - cbn [tg_nodes]. symmetry. exact (f_equal g_nodes Heq).
+      - cbn [tg_scalar]. unfold apply_dag. destruct (out1 (d_T1 d)); [|reflexivity]. destruct (first_in (d_T1 d)); [|reflexivity].
+        destruct (out1 (d_T2 d)); [|reflexivity]. destruct (first_in (d_T2 d)); reflexivity. }
+    apply first_some_spec in Hdec as (T1 & HT1 & Hd). pose proof (decide_D_kind g T1 act Hd) as Hkind.
+    destruct act as [st|f|d|a|src a0 b]; try contradiction.
+    - destruct (decide_D_chain_facts g T1 a HT1 Hd) as (T2 & p & q & Htf).
+      pose proof (tchain_admissible A sem sem_proper Htr F Hpwn Fcl Hcl Hcl_type Haccn g a T1 T2 p q e ef Hadm Htf Hk Hev) as Hpres.
+      cbn [apply_taction].
+      refine (tadm_transport g _ (apply_chain g a) e _ _ Hpres Huni).
+      + cbn [tg_nodes]. symmetry.
+        exact (f_equal g_nodes (rewire_eq _ _ a T1 T2 (proj1 (tadm_ssa _ _ _ _ Hadm)) (tf_struct _ _ _ _ _ _ Htf))).
+      + reflexivity.
+    - destruct (decide_D_multi_facts g T1 src a0 b HT1 Hd) as (T2 & p & q & H2 & HT1' & Hp & Hs & Ho & HT2 & Hq & Hi & Hob & Hinv & Hne).
+      destruct (tmulti_admissible A sem sem_proper Htr g e ef T1 T2 p q src a0 b Hadm HT1 H2 HT1' Hp Hs Ho HT2 Hq Hi Hob Hinv Hne Hev) as [H1 H2'].
+      split; [exact H1 | exact (H2' Huni)].
+  Qed.
+
+  (* the purely computational part of what used to be assumed along the loop *)
+  Fixpoint kinds_along (fuel : nat) (g : tgraph) : bool :=
+    match fuel with
+    | O => true
+    | S k => match decide_step g with Some act => proved_kind_all g act && kinds_along k (apply_taction g act) | None => true end
+    end.
+
+  (* THE PASS, for every graph that is admissible WHEN THE PASS STARTS *)
+  Theorem transpose_pair_pass_sound_start : forall fuel g e, tadmissible_u g e -> kinds_along fuel g = true ->
+    refinesg (tg_graph g) (tg_graph (transpose_pair_pass fuel g)) e.
+  Proof.
+    induction fuel as [|k IH]; simpl; intros g e Hadm Hkinds.
+    - apply (refines_refl V teq (@teq_refl A) sem).
+    - unfold transpose_pair_step. destruct (decide_step g) as [act|] eqn:Ed; simpl; [|apply (refines_refl V teq (@teq_refl A) sem)].
+      apply andb_prop in Hkinds as [Hk Hrest]. intros out Hrun.
+      assert (Hev : exists ef, evalg (tg_nodes g) e = Some ef).
+      { unfold run in Hrun. simpl in Hrun. destruct (evalg (tg_nodes g) e); [eauto|discriminate]. }
+      destruct Hev as [ef Hev].
+      pose proof (transpose_pair_action_admissible g act e ef Hadm Hev Ed Hk) as Hadm'.
+      revert out Hrun. eapply (refines_trans V teq (@teq_trans A) sem).
+      + apply (transpose_pair_action_sound_all g act e Hadm Ed Hk).
+      + apply IH; auto.
   Qed.
 
   Fixpoint tadmissible_along_all (fuel : nat) (g : tgraph) (e : env V) : Prop :=
